@@ -205,6 +205,10 @@ static ares_status_t parse_nameserver_uri(ares_buf_t     *buf,
   char          hoststr[256];
   size_t        addrlen;
 
+  /* Start from a clean slate: the caller reuses one ares_sconfig_t for every
+   * entry, and not every member is assigned below */
+  memset(sconfig, 0, sizeof(*sconfig));
+
   status = ares_uri_parse_buf(&uri, buf);
   if (status != ARES_SUCCESS) {
     return status;
